@@ -246,11 +246,11 @@ func loaderMapping(c *Ctx) (string, string, bool) {
 		args := ci.Common().Args
 		switch full {
 		case "strings.HasSuffix":
-			if s, ok := constString(args[1]); ok {
+			if s, ok := c.constStringOrInitVar(args[1]); ok {
 				suffix = s
 			}
 		case "fmt.Sprintf":
-			if s, ok := constString(args[0]); ok {
+			if s, ok := c.constStringOrInitVar(args[0]); ok {
 				format = s
 			}
 		case "embed.ReadFile":
@@ -267,7 +267,7 @@ func loaderMapping(c *Ctx) (string, string, bool) {
 	// the appended suffix: BinOp ADD of param and const
 	allInstrs(fn, func(in ssa.Instruction) {
 		if b, ok := in.(*ssa.BinOp); ok && b.Op.String() == "+" {
-			if s, ok := constString(b.Y); ok {
+			if s, ok := c.constStringOrInitVar(b.Y); ok {
 				appended = s
 			}
 		}
@@ -683,4 +683,54 @@ func checkMergeVariant(c *Ctx, r *Report) {
 			r.Bad("C17/merge", "section "+k, c.Pos(fd.Pos()), fmt.Sprintf("mergeVariant never merges section %s: a variant defining it has no effect", k))
 		}
 	}
+}
+
+// constStringOrInitVar: a string constant, or a load of a package-level variable that is initialised with a string
+// constant and never assigned anywhere else (effectively a constant).
+func (c *Ctx) constStringOrInitVar(v ssa.Value) (string, bool) {
+	if s, ok := constString(v); ok {
+		return s, true
+	}
+	u, ok := v.(*ssa.UnOp)
+	if !ok {
+		return "", false
+	}
+	g, ok := u.X.(*ssa.Global)
+	if !ok || g.Pkg == nil {
+		return "", false
+	}
+	val, n := "", 0
+	for _, m := range g.Pkg.Members {
+		fn, ok := m.(*ssa.Function)
+		if !ok {
+			continue
+		}
+		for _, f := range append([]*ssa.Function{fn}, AnonFuncsDeep(fn)...) {
+			allInstrs(f, func(in ssa.Instruction) {
+				if st, ok := in.(*ssa.Store); ok && st.Addr == ssa.Value(g) {
+					n++
+					if s, isC := constString(st.Val); isC && f.Name() == "init" {
+						val = s
+					} else {
+						n += 100
+					}
+				}
+			})
+		}
+	}
+	// methods are not package members: scan library functions of the package too
+	for _, f := range c.LibFns {
+		if f.Pkg != g.Pkg || f.Signature.Recv() == nil {
+			continue
+		}
+		allInstrs(f, func(in ssa.Instruction) {
+			if st, ok := in.(*ssa.Store); ok && st.Addr == ssa.Value(g) {
+				n += 100
+			}
+		})
+	}
+	if n == 1 {
+		return val, true
+	}
+	return "", false
 }
